@@ -114,7 +114,11 @@ func splitAtRecord(e *core.Env, r *core.Rand, d *gen.Out, base string) (paths []
 	if off <= 0 || off >= len(d.Text) {
 		return nil, false
 	}
-	return []string{writeFile(e.Dir, base+"-part1.klg", d.Text[:off]), writeFile(e.Dir, base+"-part2.klg", d.Text[off:])}, true
+	// the two files share their base name (`2023/times.klg 2024/times.klg`): files are told apart by their path
+	da, db := filepath.Join(e.Dir, "part 1"), filepath.Join(e.Dir, "part 2")
+	_ = os.MkdirAll(da, 0755)
+	_ = os.MkdirAll(db, 0755)
+	return []string{writeFile(da, base+".klg", d.Text[:off]), writeFile(db, base+".klg", d.Text[off:])}, true
 }
 
 // stdinJSON pipes the text into the real binary (`klog json` reading its standard input): the whole program from the
@@ -123,7 +127,11 @@ func stdinJSON(e *core.Env, text string) (records []any, nerr int, recordsNull b
 	if e.KlogBin == "" {
 		return nil, 0, false, "", false
 	}
-	b := obs.RunBin(obs.BinEnv{Bin: e.KlogBin, ConfigDir: e.Dir + "/bincfg", Stdin: []byte(text)}, "json")
+	cfg := e.Dir + "/bincfg"
+	if len(text)%2 == 0 {
+		cfg = cfgWithDefaultBookmark(e) // piped text takes precedence over a default bookmark
+	}
+	b := obs.RunBin(obs.BinEnv{Bin: e.KlogBin, ConfigDir: cfg, Stdin: []byte(text)}, "json")
 	if b.Err != nil {
 		return nil, 0, false, "", false
 	}
@@ -187,4 +195,23 @@ func longLineText(r *core.Rand, n int) string {
 		return "2032-02-02\n" + long + "\n    1h\n"
 	}
 	return "2032-02-02\n    1h " + long + "\n    2h\n"
+}
+
+var bmCfgOnce = map[string]string{}
+
+// cfgWithDefaultBookmark returns a config folder in which a default bookmark points to a decoy file (created once per
+// process through the real `klog bookmarks set`). Text piped into klog must win over that bookmark.
+func cfgWithDefaultBookmark(e *core.Env) string {
+	if d, ok := bmCfgOnce[e.Dir]; ok {
+		return d
+	}
+	dir := e.Dir + "/bincfg-bm"
+	_ = os.MkdirAll(dir, 0755)
+	decoy := writeFile(e.Dir, "decoy-default-bookmark.klg", "1999-01-01 (1h!)\n    7h7m decoy\n")
+	b := obs.RunBin(obs.BinEnv{Bin: e.KlogBin, ConfigDir: dir}, "bookmarks", "set", decoy)
+	if b.Err != nil || b.Code != 0 {
+		dir = e.Dir + "/bincfg" // could not be set up: fall back to the plain folder
+	}
+	bmCfgOnce[e.Dir] = dir
+	return dir
 }
